@@ -93,3 +93,108 @@ func TestC08WebsocketClose(t *testing.T) {
 		}
 	})
 }
+
+// TestC08PeerCloseManySessions: Peer.Close is the graceful close of every session of the peer:
+// it returns only after the entered handlers of all of them have finished and replied.
+func TestC08PeerCloseManySessions(t *testing.T) {
+	rec := vt.NewRec(t, "C08", "peer-close-many", "a serving peer with 2-5 sessions, each with 0-2 calls whose handlers are gated and entered (at least one in total); Peer.Close; handlers are released one at a time in a generated order; oracle: Close has not returned before the last release, every call completes OK with its genuine result, afterwards every session of the peer is closed (its remote end is notified) and none is listed; non-trivial = handlers running on at least two sessions; distinct by case")
+	protos := vt.StreamProtos()
+	rapid.Check(t, func(t *rapid.T) {
+		vt.Init()
+		lib := newLib()
+		proto := rapid.SampledFrom(protos).Draw(t, "proto")
+		ns := rapid.IntRange(2, 5).Draw(t, "sessions")
+		per := make([]int, ns)
+		total, busy := 0, 0
+		for i := range per {
+			per[i] = rapid.IntRange(0, 2).Draw(t, "calls")
+			total += per[i]
+			if per[i] > 0 {
+				busy++
+			}
+		}
+		if total == 0 {
+			per[0], total, busy = 1, 1, 1
+		}
+		order := rapid.Permutation(seq(total)).Draw(t, "release")
+		rec.Case(fmt.Sprintf("%s|%v|%v", proto.Name, per, order), busy >= 2, fmt.Sprintf("sessions=%d", ns))
+		if rec.WantSample() && busy >= 2 {
+			rec.Sample(map[string]interface{}{"proto": proto.Name, "calls_per_session": per, "release_order": order})
+		}
+		w := vt.NewWorld()
+		defer w.Close()
+		srv := w.Peer(erpc.PeerConfig{})
+		cli := w.Peer(erpc.PeerConfig{})
+		route, _ := registerLib(srv)
+		type call struct {
+			rid     string
+			cmd     erpc.CallCmd
+			res     *LibRes
+			release func()
+			entered <-chan struct{}
+		}
+		var calls []*call
+		var links []*vt.Link
+		for si := 0; si < ns; si++ {
+			l := w.Connect(cli, srv, proto, nil)
+			if l.A == nil || l.B == nil {
+				t.Fatalf("connect failed")
+			}
+			links = append(links, l)
+			for k := 0; k < per[si]; k++ {
+				rid := fmt.Sprintf("s%dk%d", si, k)
+				e, rel := lib.Gate(rid)
+				c := &call{rid: rid, res: new(LibRes), release: rel, entered: e}
+				c.cmd = l.A.AsyncCall(route, &LibArg{Rid: rid, Act: "slow", Val: "genuine-" + rid}, c.res, make(chan erpc.CallCmd, 1))
+				calls = append(calls, c)
+			}
+		}
+		defer func() {
+			for _, c := range calls {
+				c.release()
+			}
+		}()
+		for _, c := range calls {
+			if !vt.WaitClosed(c.entered) {
+				t.Fatalf("%s", vt.Hang("entry of handler "+c.rid))
+			}
+		}
+		closed := make(chan struct{})
+		go func() { srv.Close(); close(closed) }()
+		vt.WaitUntil(func() bool {
+			for _, l := range links {
+				if l.B.Health() {
+					return false
+				}
+			}
+			return true
+		})
+		for n, idx := range order {
+			select {
+			case <-closed:
+				t.Fatalf("C08 violated: Peer.Close returned while %d of %d entered handlers (on %d sessions) were still running", total-n, total, busy)
+			default:
+			}
+			calls[idx].release()
+			if !vt.WaitClosed(calls[idx].cmd.Done()) {
+				t.Fatalf("%s", vt.Hang("completion of call "+calls[idx].rid+" after its handler was released"))
+			}
+		}
+		for _, c := range calls {
+			if !c.cmd.StatusOK() || c.res.Val != "genuine-"+c.rid {
+				t.Fatalf("C08 violated: call %s, whose handler was entered before Peer.Close, completed with %v / %+v instead of its genuine reply", c.rid, c.cmd.Status(), *c.res)
+			}
+		}
+		if !vt.WaitClosed(closed) {
+			t.Fatalf("%s", vt.Hang("return of Peer.Close after every handler was released"))
+		}
+		for i, l := range links {
+			if !vt.WaitClosed(l.A.CloseNotify()) {
+				t.Fatalf("C08 violated: session %d of the closed peer is still connected after Peer.Close returned; %s", i, vt.Hang("the close notification at its remote end"))
+			}
+		}
+		if n := srv.CountSession(); n != 0 {
+			t.Fatalf("C08 violated: the closed peer still lists %d sessions", n)
+		}
+	})
+}
